@@ -754,7 +754,9 @@ pub fn plan(property: &str, tier: Tier) -> Option<Plan>
                     Op::Register(1, Bundle::three(Trig::Despawn(0), Trig::Despawn(1), Trig::Removal(Comp::A)), Mode::Persistent),
                 ];
                 let alpha: AlphabetFn = Arc::new(|i: &DynInfo| {
-                    let mut v = vec![Op::Run(0), Op::Run(1), Op::SysEvent(0), Op::Broadcast(Ev::A), Op::DespawnSys(0)];
+                    // (StripSys: the system's entity survives without its storage - the runner's "component missing on
+                    // insert" branch discards the callback, and with it the signal the closure owns)
+                    let mut v = vec![Op::Run(0), Op::Run(1), Op::SysEvent(0), Op::Broadcast(Ev::A), Op::DespawnSys(0), Op::StripSys(0)];
                     for k in i.ready_tokens() { v.push(Op::Revoke(k)); }
                     v
                 });
@@ -1055,7 +1057,9 @@ pub fn plan(property: &str, tier: Tier) -> Option<Plan>
                 c.actors = vec![Variant::Plain, Variant::Plain, Variant::NoTake];
                 c.n_ents = 1;
                 c.setup = vec![
-                    Op::Register(0, Bundle::two(Trig::Broadcast(Ev::A), Trig::EntityEvent(Ev::A, 0)), Mode::Persistent),
+                    // (actor 0 is registered twice for the broadcast: persistent registrations are not de-duplicated, it
+                    // reads the event twice)
+                    Op::Register(0, Bundle::three(Trig::Broadcast(Ev::A), Trig::EntityEvent(Ev::A, 0), Trig::Broadcast(Ev::A)), Mode::Persistent),
                     Op::Register(1, Bundle::two(Trig::Broadcast(Ev::A), Trig::AnyEntityEvent(Ev::A)), Mode::Persistent),
                     Op::Register(2, Bundle::one(Trig::EntityEvent(Ev::A, 0)), Mode::Persistent),
                 ];
@@ -1574,6 +1578,32 @@ pub fn plan(property: &str, tier: Tier) -> Option<Plan>
                 c.final_gc = true;
                 c.max_runs = 200;
                 items.push(item(c, "life-comp", &format!("D={d}")));
+            }
+            if is7
+            {
+                // reactors added with App::add_reactor are persistent: they survive the loss of all their (entity-bound)
+                // triggers
+                let ds: &[u32] = if q { &[4] } else { &[4, 5] };
+                for &d in ds
+                {
+                    let mut c = Config::base(&format!("C07/app-persistent/D{d}"));
+                    c.actors = vec![Variant::Plain];
+                    c.n_ents = 2;
+                    c.app_reactors = vec![
+                        (Variant::Plain, Bundle::two(Trig::Despawn(0), Trig::Despawn(1))),
+                        (Variant::Plain, Bundle::two(Trig::EntityEvent(Ev::A, 0), Trig::Despawn(0))),
+                    ];
+                    let alpha: AlphabetFn = Arc::new(|_i: &DynInfo| vec![Op::Despawn(0), Op::Despawn(1), Op::EntityEvent(Ev::A, 0), Op::Poll, Op::Gc, Op::Run(0)]);
+                    c.top = alpha.clone();
+                    c.script = alpha;
+                    c.max_top = d;
+                    c.budget = d;
+                    c.max_per_run = 2;
+                    c.final_gc = true;
+                    c.max_runs = 200;
+                    c.sym_actors = vec![];
+                    items.push(item(c, "app-persistent", &format!("D={d}")));
+                }
             }
             if is7
             {
